@@ -810,14 +810,18 @@ class FitEngine(Engine):
             ctx.violate("success_req", f"[{where}] success but FWHM={fw} > {fr['max_peak_width_factor']} x "
                         f"window span {spanw}", kind="success:too_wide")
         c = int(np.argmin(np.abs(xs - popt["peak_loc"])))
-        if 0 < c < len(xs) - 1:
-            bw = (xs[c + 1] - xs[c - 1]) / 2
+        # "the spacing of the coordinate around the peak centre": the mean of the two adjacent
+        # intervals; at the first / last point of the window there is only one adjacent interval
+        # (how close to the edge is "too close" is not quantified by the requirements, so a centre
+        # nearest to a boundary point is not by itself a violation)
+        lo_i, hi_i = max(c - 1, 0), min(c + 1, len(xs) - 1)
+        if hi_i > lo_i:
+            if c in (0, len(xs) - 1):
+                ctx.probe("success_with_centre_nearest_to_a_boundary_point")
+            bw = (xs[hi_i] - xs[lo_i]) / (hi_i - lo_i)
             if fw < fr["min_peak_width_factor"] * bw * (1 - 1e-12):
                 ctx.violate("success_req", f"[{where}] success but FWHM={fw} < {fr['min_peak_width_factor']} "
                             f"x local spacing {bw}", kind="success:too_narrow")
-        else:
-            ctx.violate("success_req", f"[{where}] success but the fitted location {popt['peak_loc']} is at "
-                        f"the very edge of the window [{xs[0]}, {xs[-1]}]", kind="success:edge")
         if popt.get("peak_amplitude", 0.0) < 0:
             ctx.violate("success_req", f"[{where}] success with negative amplitude", kind="success:sign")
         if not (xs[0] <= popt["peak_loc"] <= xs[-1]):
